@@ -40,7 +40,9 @@ class Exec(ExprMixin, CallMixin, BuiltinMixin, StmtMixin):
     def prim_wf(self, args, path, node):
         if not self.ctx.wf_on:
             self.ctx.wf_on = True
-            self.ctx.axioms += theory.wf_axioms(self.ctx, Path(), unique_names=True)
+            wfa = theory.wf_axioms(self.ctx, Path(), unique_names=True)
+            self.ctx.wf_ids = {id(a) for a in wfa}
+            self.ctx.axioms += wfa
             self.ctx.assumptions.add(theory.WF_TEXT)
         return VBool(True)
 
@@ -357,6 +359,9 @@ def build(index, contracts, specs, rec, fid, keep_ends=False):
     env = {}
     args = fi.node.args.args
     for a in args:
+        if a.arg == 'cls' and getattr(fi, 'is_classmethod', False) and fi.cls is not None:
+            env[a.arg] = VClass(fi.cls)
+            continue
         k = param_kind(ex, fi, con, a.arg, a.annotation)
         v = ctx.fresh_val(a.arg, k)
         env[a.arg] = v
@@ -425,7 +430,7 @@ def build(index, contracts, specs, rec, fid, keep_ends=False):
 def _solver(ctx, hyps, goal, timeout_ms):
     s = z3.Solver()
     s.set('timeout', timeout_ms)
-    s.set('random_seed', 0)
+    s.set('random_seed', getattr(ctx, 'z3_seed', 0))
     limit = getattr(ctx, 'axiom_limit', None)
     for a in (ctx.axioms if limit is None else ctx.axioms[:limit] + [x for x in ctx.axioms[limit:] if id(x) in ctx.definitional]):
         s.add(a)
@@ -435,10 +440,38 @@ def _solver(ctx, hyps, goal, timeout_ms):
     return s
 
 
-def check_valid(ctx, hyps, goal, timeout_ms=None, use_cli=True, full=True):
+def recfun_decls(ctx):
+    out = []
+    for v in ctx.recfuncs.values():
+        if isinstance(v, tuple) and len(v) == 3 and isinstance(v[0], z3.FuncDeclRef):
+            out.append(v[0])
+    return out
+
+
+def abstract_recfuns(ctx, hyps, goal):
+    pairs = []
+    for d in recfun_decls(ctx):
+        nd = z3.Function('abs_' + d.name(), *([d.domain(i) for i in range(d.arity())] + [d.range()]))
+        pairs.append((d, nd(*[z3.Var(i, d.domain(i)) for i in range(d.arity())])))
+    if not pairs:
+        return list(hyps), goal
+    ctx._abs_pairs = pairs
+    return [z3.substitute_funs(h, *pairs) for h in hyps], z3.substitute_funs(goal, *pairs)
+
+
+def check_valid(ctx, hyps, goal, timeout_ms=None, use_cli=True, full=True, abstract_axioms=False):
     """returns (verdict, backend, seconds, model_or_reason)"""
     t0 = time.time()
     try:
+        if abstract_axioms:
+            saved = ctx.axioms
+            pairs = getattr(ctx, '_abs_pairs', [])
+            wf_ids = getattr(ctx, 'wf_ids', set())
+            ctx.axioms = [z3.substitute_funs(a, *pairs) if pairs else a for a in saved if abstract_axioms != 'wf' or id(a) in wf_ids]
+            try:
+                return _check_valid(ctx, hyps, goal, timeout_ms, use_cli, full)
+            finally:
+                ctx.axioms = saved
         return _check_valid(ctx, hyps, goal, timeout_ms, use_cli, full)
     except z3.Z3Exception as e:
         # an internal solver error decides nothing
@@ -671,8 +704,40 @@ def discharge(ctx, ob, timeout_ms=None, outside=None, known_ids=()):
     if getattr(ob, 'trivial', False):
         res.update(verdict='proved', backend='evaluation (the clause is literally true on this path)', seconds=0.0)
         return res
+    # 0. the same obligation with every recursive specification function replaced by a fresh uninterpreted symbol (a weakening:
+    #    valid there implies valid here).  Definedness and frame obligations rarely need the definitions, and unfolding them
+    #    feeds the wf axioms with ever new terms (parent of parent of ...), which starves the instantiation that is needed.
+    v = None
+    if not inductive or ob.kind == 'pre':
+        try:
+            ah, ag = abstract_recfuns(ctx, ob.hyps, ob.goal)
+            # first with the tree axioms alone (sequence and fold axioms bring the sequence solver in), then with all axioms
+            v, be, dt, extra = check_valid(ctx, ah, ag, min(timeout_ms, 2000), use_cli=False, full=False, abstract_axioms='wf')
+            if v == 'proved':
+                be = be + ' (tree axioms only, recursive specification functions abstracted)'
+            else:
+                v, be, dt, extra = check_valid(ctx, ah, ag, min(timeout_ms, 3000), use_cli=False, full=False, abstract_axioms=True)
+                if v == 'proved':
+                    be = be + ' (recursive specification functions abstracted)'
+        except z3.Z3Exception:
+            v = None
     # 1. e-matching only; 2. fold induction; 3. full z3 (model finding); 4. CLI back ends on the SMT-LIB dump
-    v, be, dt, extra = check_valid(ctx, ob.hyps, ob.goal, timeout_ms, use_cli=False, full=False)
+    if v != 'proved':
+        v, be, dt, extra = check_valid(ctx, ob.hyps, ob.goal, timeout_ms, use_cli=False, full=False)
+    if v != 'proved' and z3.is_and(ob.goal) and ob.goal.num_args() > 1:
+        # a conjunction: each conjunct on its own (smaller search per query), each with a small portfolio of solver seeds
+        # (instantiation order decides whether e-matching finds the short proof before the sequence solver is drawn in)
+        def one(goal):
+            for seed in (0, 1, 2, 3, 4):
+                ctx.z3_seed = seed
+                try:
+                    if check_valid(ctx, ob.hyps, goal, timeout_ms, use_cli=False, full=False)[0] == 'proved':
+                        return True
+                finally:
+                    ctx.z3_seed = 0
+            return False
+        if all(one(ob.goal.arg(k)) for k in range(ob.goal.num_args())):
+            v, be = 'proved', f'z3-5.1(api) goal split into {ob.goal.num_args()} conjuncts (seed portfolio)'
     if v != 'proved' and outside is not None:
         # recorded known-finding region: prove on its complement before spending the budget on refutation
         hy = list(ob.hyps) + [outside]
